@@ -822,7 +822,12 @@ int main(int argc, char** argv)
                       const int(*G)[6] = big ? GEO_L : GEO_S;
                       for (int i = 0; i < 3; ++i) { c.mn[i] = G[gi][i]; c.sz[i] = G[gi][3 + i]; }
                       c.ex[3] = 2;
-                      if (!exec(c, big && !th ? 1 : (big ? ((long)c.sz[0] * c.sz[1] * c.sz[2] * 8 <= 2048 ? 2 : 1) : 2))) goto done;
+                      // Multi dynamic container: every read of frames 2.. costs ~30 ms (the reader looks up the scanner by name, which constructs every
+                      // Scanner of the list), and its per-frame files are written/read by the single-image Interfile code that cont=single sweeps at
+                      // every length.  So for the larger images: strided + slice-boundary lengths only, labelling values only.
+                      const bool slow_multi = sc_ == "multi" && big;
+                      if (slow_multi && val == 1) continue;
+                      if (!exec(c, big && !th ? 1 : (big ? (!slow_multi && (long)c.sz[0] * c.sz[1] * c.sz[2] * 8 <= 2048 ? 2 : 1) : 2))) goto done;
                     }
             }
         }
